@@ -55,6 +55,7 @@ def run(ctx):
     _get_path(ctx, m)
     _siblings(ctx, m, g)
     _text_chain(ctx, m)
+    keyword_boundaries(ctx, m)
     filter_bypass(ctx, m, 'C11.D6')
     # `a->b` resolves the reference through the grid's id index: the index must describe the rows currently in the
     # grid after every mutation (clauses shared with C15.D1/D3)
@@ -73,6 +74,55 @@ def run(ctx):
     # a time literal denotes exactly the time it spells
     from . import _zinc as _z
     _z.time_literal_exact(ctx, 'C11.D5', MOD)
+
+
+def keyword_boundaries(ctx, m, rule='C11.D1'):
+    """The words of the filter language (`not`, `and`, `or`) are whole words: a tag name that merely starts with one of
+    them (notes, note, nothing, android, order ...) is a tag name.  Decides: every alphabetic word of the grammar that is
+    followed, in a sequence, by a rule that can start with a name is a pyparsing Keyword / CaselessKeyword (or a Regex
+    ending in \\b), never a Literal -- Literal("not") also matches the first three letters of `notes`."""
+    try:
+        mod = m.mod(MOD)
+    except AnalysisError as e:
+        ctx.error(rule, str(e))
+        return
+    name_starts = {'hs_path', 'hs_term', 'hs_condAnd', 'hs_condOr', 'hs_filter', 'hs_name', 'hs_id', 'hs_has', 'hs_cmp', 'hs_missing'}
+    n_words = 0
+    for n in ast.walk(mod.tree):
+        if not (isinstance(n, ast.BinOp) and isinstance(n.op, ast.Add)):
+            continue
+        left = n.left
+        # the element right before the `+`: the right-most operand of a nested sum
+        while isinstance(left, ast.BinOp) and isinstance(left.op, ast.Add):
+            left = left.right
+        inner = left
+        while isinstance(inner, ast.Call) and norm(inner.func) in ('Suppress', 'Optional', 'Group') and inner.args:
+            inner = inner.args[0]
+        if not (isinstance(inner, ast.Call) and inner.args and isinstance(inner.args[0], ast.Constant)
+                and isinstance(inner.args[0].value, str) and inner.args[0].value.isalpha()):
+            continue
+        right = n.right
+        while isinstance(right, ast.Call) and norm(right.func) in ('Suppress', 'Optional', 'Group', 'ZeroOrMore', 'OneOrMore') and right.args:
+            right = right.args[0]
+        if not (isinstance(right, ast.Name) and right.id in name_starts):
+            continue
+        word = inner.args[0].value
+        kind = norm(inner.func)
+        n_words += 1
+        if kind in ('Keyword', 'CaselessKeyword'):
+            ctx.ob(rule, 'the word `%s` is a %s: it ends at a word boundary' % (word, kind), True, '%s:%d' % (F, inner.lineno))
+        elif kind in ('Literal', 'CaselessLiteral'):
+            w = {'not': ('notes', 'the rows WITHOUT a tag `es`', 'not es'), 'and': ('a android', 'the rows with a and roid', 'a and roid'),
+                 'or': ('a order', 'the rows with a or der', 'a or der')}.get(word, (word + 'x', '?', word + ' x'))
+            ctx.violation(rule, '%s::%s("%s")' % (F, kind, word), norm(n)[:100],
+                          'grid.filter(%r) is read as `%s` and selects %s instead of %s'
+                          % (w[0], w[2], w[1], 'the rows that have the tag `notes`' if word == 'not' else 'raising a parse error'),
+                          'the word `%s` is a %s followed by a rule that starts with a name: it also matches the first letters of a '
+                          'longer name' % (word, kind), file=F, line=inner.lineno, engine='E2')
+        else:
+            ctx.error(rule, 'the word `%s` is matched by %s(...): word boundary not decided' % (word, kind))
+    ctx.count('words of the filter language followed by a name', n_words)
+    ctx.floor('words of the filter language followed by a name', n_words, 3)
 
 
 class _Renamed(object):
